@@ -28,6 +28,7 @@ func (c10) Cases(tier string, seed int64, kf *KnownFindings) []Case {
 	var cs []Case
 	add := func(c Case) { c.Sub = -1; cs = append(cs, c) }
 	add(Case{Kind: "table"})
+	add(Case{Kind: "bulk", Seed: Mix(seed, 4244)})
 	n, per := 16, 2000
 	if tier == "thorough" {
 		n, per = 200, 20000
@@ -160,6 +161,9 @@ func (c10) Run(c Case, env *Env) Result {
 		}
 	}
 	switch c.Kind {
+	case "bulk":
+		bulkCheck(env, &res, c, "time")
+		res.Sample(map[string]interface{}{"kind": "bulk", "what": "1200 timestamps in one list and timestamps behind 4070..4100 bytes of padding"})
 	case "table":
 		tab := dateTable()
 		j := 0
